@@ -116,3 +116,10 @@ def _f14(v):
     d = v["detail"]
     return (v["kind"] == "configurations_differ" and d.get("spec_has_negated_class") is True
             and d.get("differs_only_inside_equal_length_strings") is True and d.get("in_process_stable") is True)
+
+
+@predicate("F21")
+def _f21(v):
+    d = v["detail"]
+    return (v["kind"] == "result_rejects_the_substituted_value" and d.get("contains_window_with_partial_dict") is True
+            and d.get("error_kinds") == ["MissingKeyValidationError"])
